@@ -326,7 +326,10 @@ sqf::runtime::runtime::result sqf::runtime::runtime::execute(sqf::runtime::runti
 #endif
             m_is_exit_requested = false;
             m_is_halt_requested = false;
-            auto scopeNum = m_context_active->frames_size() - 1;
+            // Without any script there is nothing to execute (and no active context to look at)
+            res = m_contexts.empty() ? result::empty : result::invalid;
+            if (!m_context_active && !m_contexts.empty()) { m_context_active = m_contexts.front(); }
+            auto scopeNum = m_context_active && !m_context_active->empty() ? m_context_active->frames_size() - 1 : 0;
             m_state = state::running;
 #ifdef SQFVM_RUNTIME_VERIF
             sqf::runtime::verif::at_sync(sqf::runtime::verif::sync::exec_running, *this);
@@ -391,6 +394,8 @@ sqf::runtime::runtime::result sqf::runtime::runtime::execute(sqf::runtime::runti
         {
             // The max_runtime budget is per run
             run_timestamp_reset();
+            // Without any script there is nothing to execute: that is a completed, empty run
+            if (m_contexts.empty()) { res = result::empty; }
 #ifdef SQFVM_RUNTIME_VERIF
             sqf::runtime::verif::at_sync(sqf::runtime::verif::sync::exec_acquired, *this);
 #endif
@@ -613,9 +618,12 @@ sqf::runtime::runtime::result sqf::runtime::runtime::execute(sqf::runtime::runti
             sqf::runtime::verif::observe(sqf::runtime::verif::obs::run_begin, *this, 0);
 #endif
             std::optional<diagnostics::diag_info> dinf;
+            // Without any script there is nothing to execute (and no active context to look at)
+            res = m_contexts.empty() ? result::empty : result::invalid;
+            if (!m_context_active && !m_contexts.empty()) { m_context_active = m_contexts.front(); }
             while (!m_is_exit_requested && !m_is_halt_requested && !m_contexts.empty())
             {
-                if (!dinf.has_value())
+                if (!dinf.has_value() && !m_context_active->empty())
                 {
                     auto next_inst = m_context_active->current_frame().peek(success);
                     if (success)
